@@ -114,6 +114,22 @@ class SimDisk:
         self._log("rename", src, dst)
 
 
+    def _remove(self, path) -> None:
+        path = str(path)
+        r = self.op("remove", path)
+        if r == "frozen":
+            return
+        if isinstance(r, tuple):
+            raise SimCrash
+        if path not in self.files:
+            raise FileNotFoundError(errno.ENOENT, "sim: no such file", path)
+        del self.files[path]
+        self.mutating_ops += 1
+        self._log("remove", path)
+
+    remove = _remove
+
+
 class SimRawIO(io.RawIOBase):
     def __init__(self, disk: SimDisk, path: str, mode: str) -> None:
         super().__init__()
@@ -279,9 +295,33 @@ class patched_fs:
 
         os.replace = replace
         os.rename = replace
+        # aiofiles.os.* wrap the os functions captured at import time: route them as well
+        import asyncio
+        import functools
+
+        import aiofiles.os as aos
+
+        self._aos = aos
+        self._old_aos = {name: getattr(aos, name) for name in ("replace", "rename", "remove", "unlink") if hasattr(aos, name)}
+
+        def make(name, old):
+            async def run(*args, loop=None, executor=None, **kwargs):
+                if any(str(a).startswith("/sim/") for a in args):
+                    lp = loop or asyncio.get_running_loop()
+                    if name in ("replace", "rename"):
+                        return await lp.run_in_executor(executor, functools.partial(disk.replace, *args))
+                    return await lp.run_in_executor(executor, functools.partial(disk.remove, *args))
+                return await old(*args, loop=loop, executor=executor, **kwargs)
+
+            return run
+
+        for name, old in self._old_aos.items():
+            setattr(aos, name, make(name, old))
         return self.disk
 
     def __exit__(self, *exc):
         self._tp.sync_open = self._old_open
         self._os.replace, self._os.rename = self._old_replace, self._old_rename
+        for name, old in self._old_aos.items():
+            setattr(self._aos, name, old)
         return False
